@@ -46,7 +46,7 @@ CLAIMS = {
         design_ref='DESIGN.md §2 C05'),
     'C13': dict(
         technique='provenance of the caller range across calls (clamp-before-slice), dominance of the not-erroneous edge, provenance of the returned (range, text) pair, range-only partial-operation inventory; sibling cross-check of cover search and printer: abstract evaluation of both per (kind, mode, preceded-by-#) and a simulation over (kind, converter, printer mode, cover mode) from the root',
-        text='No-panic for arbitrary ranges, refusal and range/text consistency are decided structurally on every path, and the selected node is shown to be converted in the syntactic mode the whole-document formatter would use for it (or one that only adds redundant grouping parentheses). The re-parse equivalence of the splice in general (e.g. the inferred indentation of list-item bodies) is behavioural and not decided. Found and repaired F3, F10.',
+        text='No-panic for arbitrary ranges, refusal and range/text consistency are decided structurally on every path, and the selected node is shown to be converted in the syntactic mode the whole-document formatter would use for it (or one that only adds redundant grouping parentheses). The body of a list / enum / term item is nested as the printer nests it. The re-parse equivalence of the splice in general is behavioural and not decided. Found and repaired F3, F10, F16 (hanging indent of list-item bodies).',
         design_ref='DESIGN.md §2 C13'),
     'C19': dict(
         technique='guarded-by conjunction on the single order-changing call, coverage of the comment-free condition over every slice of the import\'s children, who-may-touch the item list, soundness obligations of the duplicate test, flag read-site count, clap default extraction',
